@@ -13,5 +13,9 @@ func main() {
 		c14.ChildMain(os.Args[2:])
 		return
 	}
+	if len(os.Args) > 1 && os.Args[1] == "c14child-fs" {
+		c14.ChildFSMain(os.Args[2:])
+		return
+	}
 	core.Main(c14.New())
 }
